@@ -413,6 +413,14 @@ func runDocument(in docInput) (cases []vlib.Case, status string) {
 		for i, e := range rec.Ev {
 			calls[i] = e.Coq()
 		}
+		// a very long trace (e.g. thousands of wave segments) overflows coqc's stack:
+		// the monitor then runs on a prefix (sound: acceptance is prefix closed,
+		// C14_protocol_prefix_closed; the page count / balance test is dropped)
+		const maxCalls = 8000
+		truncated := len(calls) > maxCalls
+		if truncated {
+			calls = calls[:maxCalls]
+		}
 		trace := vlib.List(calls)
 		byRule := map[int][]string{}
 		var rules []int
@@ -427,9 +435,15 @@ func runDocument(in docInput) (cases []vlib.Case, status string) {
 		for i, r := range rules {
 			sep[i] = fmt.Sprint(r)
 		}
-		cases = append(cases, vlib.Case{Kind: "trace", Coq: fmt.Sprintf("KTrace %d %s %s", len(doc.Pages), vlib.List(sep), trace),
-			Desc: descBase(map[string]interface{}{"calls": len(rec.Ev), "pages": len(doc.Pages), "rules_reported_separately": rules}),
-			Tags: tags, Nontrivial: len(rec.Ev) > 20, Key: in.Name + "/trace"})
+		traceTerm := fmt.Sprintf("KTrace %d %s %s", len(doc.Pages), vlib.List(sep), trace)
+		ttags := tags
+		if truncated {
+			traceTerm = fmt.Sprintf("KTracePrefix %s %s", vlib.List(sep), trace)
+			ttags = append(append([]string(nil), tags...), "trace-truncated")
+		}
+		cases = append(cases, vlib.Case{Kind: "trace", Coq: traceTerm,
+			Desc: descBase(map[string]interface{}{"calls": len(rec.Ev), "pages": len(doc.Pages), "rules_reported_separately": rules, "truncated": truncated}),
+			Tags: ttags, Nontrivial: len(rec.Ev) > 20, Key: in.Name + "/trace"})
 		for _, r := range rules {
 			d := byRule[r]
 			if len(d) > 12 {
